@@ -9,7 +9,7 @@ NODE = re.compile(r"^\((.+)->next - &NULL->(\w+)\)$")
 POPPED = re.compile(r"^\(cmi_slist_pop\((.+)\) - &NULL->(\w+)\)$")
 
 
-def check_list_removal(rep, rule, m, fname, must_free=True):
+def check_list_removal(rep, rule, m, fname, must_free=True, _depth=0):
     """Every path of `fname` that returns a tag to a pool must (i) pop the list position whose successor it
     matched and (ii) free exactly the popped node."""
     f = m.need(fname)
@@ -25,6 +25,13 @@ def check_list_removal(rep, rule, m, fname, must_free=True):
             if e[0] == "assume" and e[2]:
                 for mm in re.finditer(r"\(([^()]+)->next - &NULL->\w+\)->(\w+) == ", e[1]):
                     matched.append(mm.group(1))
+        # the pointer-to-link idiom: a cursor C of type node** ; the node under inspection is *C
+        link_matched = []
+        for e in tr:
+            if e[0] == "assume":
+                for mm in re.finditer(r"\((\*\w+(?:#L\d+)?) - &NULL->\w+\)->(\w+) (==|!=) ", e[1]):
+                    if (mm.group(3) == "==") == bool(e[2]):
+                        link_matched.append(mm.group(1))
         for fr in frees:
             stats["frees"] += 1
             tag = fr[2][1]
@@ -32,6 +39,24 @@ def check_list_removal(rep, rule, m, fname, must_free=True):
             why_not = "freed tag '%s' is not the node unlinked on this path" % tag
             mm = NODE.match(tag)
             pm = POPPED.match(tag)
+            lm = re.match(r"^\((\*\w+(?:#L\d+)?)(?:@\d+)? - &NULL->\w+\)$", tag)
+            if lm and not mm and not pm:
+                cur = lm.group(1)
+                before = tr[:tr.index(fr)] if fr in tr else tr
+                unlinked = any(e[0] == "store" and e[1] == cur and e[2] == "=" and e[3] == cur + "->next" for e in before)
+                ok = unlinked and (not link_matched or cur in link_matched)
+                if not unlinked:
+                    why_not = "the tag under the cursor '%s' is recycled but the link is not set to its successor first" % cur
+                elif not ok:
+                    why_not = "the node matched is under '%s' but the node unlinked and recycled is under '%s'" % (link_matched[-1], cur)
+                rule.instance("%s: frees %s after '%s = %s->next' (matched under %s)" % (fname, tag, cur, cur, link_matched))
+                if ok:
+                    rule.ok()
+                else:
+                    rep.finding(rule, fname, "list-remove:wrong-node", "%s: %s; the list then keeps a stale entry and loses a "
+                                "live one" % (fname, why_not), where=fr[3])
+                    rule.fail()
+                continue
             if mm:
                 pos = mm.group(1)
                 ok = any(p[2][0] == pos for p in pops)
@@ -74,5 +99,15 @@ def check_list_removal(rep, rule, m, fname, must_free=True):
 
     TR.run_traces(m, f, region)
     if must_free and stats["frees"] == 0:
+        # the unlink-and-recycle step may live in a helper this function calls: judge the helper
+        helpers = []
+        for c in walk(f.body):
+            if c["kind"] == "CallExpr" and callee_ref(c):
+                g = m.funcs.get(m.resolve(f.unit, callee_ref(c)))
+                if g is not None and g is not f and (g.static or g.in_header) and \
+                        any(y["kind"] == "CallExpr" and callee_ref(y) == "cmi_mempool_free" for y in walk(g.body)):
+                    helpers.append(g.name)
+        if len(set(helpers)) == 1 and _depth < 2:
+            return check_list_removal(rep, rule, m, helpers[0], must_free, _depth + 1)
         raise AnalysisBroken("%s: no path recycles a tag (list-removal rule matched nothing)" % fname)
     return stats
